@@ -56,3 +56,37 @@ Theorem C08_reference_cycles_diverge_witness :
          [1; 2; 3; 10; 50; 200]%nat.
 Proof. exact reference_cycles_diverge_witness. Qed.
 Print Assumptions C08_reference_cycles_diverge_witness.
+(* ---- termination (TermProps.v): the recursion of the evaluator is bounded by the program, never by the document.
+   A program is stratified by potentials (wv for variable names, wr for rule names) when every definition weighs less
+   than the name it defines; then every query, clause, rule, variable and function call evaluated with fuel >= its
+   weight + the height of the scope stack answers something other than OutOfFuel, for every document and oracle. *)
+From GV.Model Require Import Strat.
+From GV.Proofs Require Import TermProps RefineExample.
+Theorem C08_every_entry_point_terminates : forall wv wr re conv prog, stratified wv wr prog = true ->
+  forall n, Good wv wr (evalN re conv prog (S n)) n.
+Proof. exact evalN_good. Qed.
+Print Assumptions C08_every_entry_point_terminates.
+Theorem C08_stratified_programs_terminate : forall wv wr re conv prog, stratified wv wr prog = true ->
+  forall fuel doc, (file_weight wv wr prog <= fuel)%nat ->
+  eval_file re conv prog fuel doc <> OutOfFuel /\
+  forall m, (fuel <= m)%nat -> eval_file re conv prog m doc = eval_file re conv prog fuel doc.
+Proof. exact eval_file_total. Qed.
+Print Assumptions C08_stratified_programs_terminate.
+(* the executable test evaluated on every generated program of the correspondence run is sound *)
+Theorem C08_terminates_within_sound : forall re conv prog rounds w doc fuel,
+  terminates_within prog rounds = Some w -> (w <= fuel)%nat ->
+  eval_file re conv prog fuel doc <> OutOfFuel /\
+  forall m, (fuel <= m)%nat -> eval_file re conv prog m doc = eval_file re conv prog fuel doc.
+Proof. exact terminates_within_sound. Qed.
+Print Assumptions C08_terminates_within_sound.
+(* the value layer (comparisons, operators.rs, built-in functions) has no recursion on fuel at all *)
+Theorem C08_value_layer_is_total : forall re c lhs rhs name args,
+  cmp_compare re c lhs rhs <> OutOfFuel /\ call_fn name args <> OutOfFuel.
+Proof. exact value_layer_total. Qed.
+Print Assumptions C08_value_layer_is_total.
+(* not vacuous: the example program of RefineExample (variables, a filter, when, a rule reference) is certified, the
+   cyclic programs of the recorded finding are not *)
+Theorem C08_termination_instance :
+  terminates_within ex_prog 5 = Some 314%nat /\ terminates_within cyc_rule 5 = None /\ terminates_within cyc_vars 8 = None.
+Proof. exact termination_instance. Qed.
+Print Assumptions C08_termination_instance.
